@@ -179,16 +179,16 @@ def run(ctx):
         pv = prog.prov(dms)
         i_defs = set()
         for l, nm in dms.names.items():
-            if nm == "i":
-                t = pv.of_local(l)
-                i_defs |= {M.render(a) for a in (t.sub if t.kind == "phi" else [t])}
-        E.has_call(ctx, "R3", "mutations-reader:each-mutation-from-bytes[i..]", prog, dms, r"decode::decode_mutation$", [r"^\(slice::get\(bytes, std::ops::RangeFrom::RangeFrom\{var:i\}\) as Some\)\.0$"])
-        ok = "1" in i_defs and any(re.match(r"^AddWithOverflow\(var:i, essential_types::solution::Mutation::encode_size\(essential_types::solution::decode::decode_mutation\(.*\)\?\)\)\.0$", x) for x in i_defs) and len(i_defs) == 2
+            t = pv.of_local(l)
+            if t.kind == "phi" and any(M.render(a) == "1" for a in t.sub) and dms.local_ty(l) == "usize":
+                i_defs |= {M.render(a) for a in t.sub}
+        E.has_call(ctx, "R3", "mutations-reader:each-mutation-from-bytes[i..]", prog, dms, r"decode::decode_mutation$", [r"^\(slice::get\(bytes, std::ops::RangeFrom::RangeFrom\{var:\w+\}\) as Some\)\.0$"])
+        ok = "1" in i_defs and any(re.match(r"^AddWithOverflow\(var:\w+, essential_types::solution::Mutation::encode_size\(essential_types::solution::decode::decode_mutation\(.*\)\?\)\)\.0$", x) for x in i_defs) and len(i_defs) == 2
         ctx.ob("R3", "mutations-reader:cursor-starts-at-1-and-advances-by-encode_size", ok, "%s:%d" % (dms.file, dms.line), "cursor i is assigned %s" % sorted(x[:110] for x in i_defs), dms)
     ne = prog.fn("essential_types::predicate::Predicate::node_edges")
     if ctx.anchor("R3", "fn node_edges", ne):
         ctx.saw(ne)
-        tab = [(v, at) for _, v, at in M.return_table(prog, ne) if v != "<propagate error>"]
+        tab = [(re.sub(r"var:\w+", "var:e_end", v), [re.sub(r"var:\w+", "var:e_end", a) for a in at]) for _, v, at in M.return_table(prog, ne) if v != "<propagate error>"]
         N = "slice::get(self.nodes, node_ix)"
         want = [("Option::Some{array{}}", ["ok(%s)" % N, "Eq(%s?.edge_start, std::num::<impl u16>::MAX)" % N]),
                 ("Option::Some{slice::get(self.edges, std::ops::Range::Range{int::from(%s?.edge_start), var:e_end})?}" % N,
@@ -197,9 +197,9 @@ def run(ctx):
         pv = prog.prov(ne)
         ends = set()
         for l, nm in ne.names.items():
-            if nm == "e_end":
-                t = pv.of_local(l)
-                ends |= {M.render(a) for a in (t.sub if t.kind == "phi" else [t])}
+            t = pv.of_local(l)
+            if t.kind == "phi" and ne.local_ty(l) == "usize":
+                ends |= {M.render(a) for a in t.sub}
         NX = "slice::get(self.nodes, usize::saturating_add(node_ix, 1))"
         ctx.ob("R3", "node_edges:end=next-non-leaf-start-or-edges.len()", ends == {"Vec::len(self.edges)", "int::from((%s as Some).0.edge_start)" % NX}, "%s:%d" % (ne.file, ne.line), "e_end is %s" % sorted(ends), ne)
     # ---- R4 ---------------------------------------------------------------
